@@ -1,6 +1,6 @@
 (* C18 -- discovery tables hold exactly what the sources say, and stay
    consistent.  Theorems only. *)
-From NX Require Import Bytes Discovery Mdns DiscoveryFacts LeaseFacts SortedFacts MdnsFacts Refresh RefreshFacts RefreshHosts.
+From NX Require Import Bytes Discovery Mdns DiscoveryFacts LeaseFacts SortedFacts MdnsFacts Refresh RefreshFacts RefreshHosts RefreshAway.
 Open Scope Z_scope.
 
 Section C18_hosts.
@@ -169,3 +169,10 @@ Theorem C18_hosts_lookup_after_change : forall canon s evs1 tc f pre e post name
   hosts_lookup_addr (r_tbl s') addr = hosts_lookup_addr (read_hosts canon (s_content f)) addr.
 Proof. exact hosts_lookup_after_change. Qed.
 Print Assumptions C18_hosts_lookup_after_change.
+
+(* the file the table was read from disappears for a while (moved aside) and comes back as it was: through every
+   lookup made meanwhile and afterwards -- whenever, however many -- the table stays the one parsed from that file *)
+Theorem C18_away_and_back : forall (T : Type) (parse : bytes -> T) evs f s,
+  (forall e, In e evs -> snd e = None \/ snd e = Some f) -> in_sync T parse s f -> in_sync T parse (run T parse s evs) f.
+Proof. exact away_and_back. Qed.
+Print Assumptions C18_away_and_back.
